@@ -275,3 +275,42 @@ Qed.
 Example schedule_values :
   map spec_streak_delay [0; 1; 2; 3; 4]%nat = [sec 60; sec 120; sec 240; sec 300; sec 300].
 Proof. vm_compute. reflexivity. Qed.
+
+(* ---- lifecycle corollaries (C05/C20: API orders that must not disturb or restart a server) ---- *)
+(* a serving server refuses a second Serve and is left exactly as it was *)
+Theorem serve_while_serving s :
+  s_serving s = true -> s_closed s = false -> server_step s OServe = (s, SServeBusy).
+Proof. intros Hs Hc. unfold server_step. rewrite Hc, Hs. reflexivity. Qed.
+
+(* once Serve has returned (Close, or a failing listener) nothing restarts the server: whatever operations follow,
+   it never serves again and no peer runs *)
+Lemma finished_step s op :
+  s_closed s = true -> s_serving s = false ->
+  s_closed (fst (server_step s op)) = true /\ s_serving (fst (server_step s op)) = false.
+Proof.
+  intros Hc Hs. unfold server_step. destruct op as [c o|a|a| | | |].
+  - destruct (negb (opts_validate o)); [split; assumption|]. destruct (negb (cfg_validate c o)); [split; assumption|].
+    destruct (lookup (c_remote c) (s_peers s)); split; assumption.
+  - destruct (lookup a (s_peers s)); split; assumption.
+  - split; assumption.
+  - split; assumption.
+  - rewrite Hc. split; assumption.
+  - rewrite Hs. split; reflexivity.
+  - rewrite Hs. split; assumption.
+Qed.
+
+Theorem finished_server_never_serves ops : forall s,
+  inv s -> s_closed s = true -> s_serving s = false ->
+  Forall (fun st => s_serving st = false /\ s_running st = []) (run_states s ops).
+Proof.
+  induction ops as [|op r IH]; intros s Hi Hc Hs; cbn [run_states].
+  - constructor; [|constructor]. split; [exact Hs|]. destruct Hi as [_ Hl]. unfold lifecycle_ok in Hl. rewrite Hs in Hl. exact Hl.
+  - constructor.
+    + split; [exact Hs|]. destruct Hi as [_ Hl]. unfold lifecycle_ok in Hl. rewrite Hs in Hl. exact Hl.
+    + destruct (finished_step s op Hc Hs) as [Hc' Hs']. apply IH; [apply step_inv; exact Hi|exact Hc'|exact Hs'].
+Qed.
+
+(* a failing listener ends a running Serve for good *)
+Theorem break_finishes s : s_serving s = true ->
+  let s' := fst (server_step s OBreak) in s_closed s' = true /\ s_serving s' = false /\ s_running s' = [].
+Proof. intros Hs. unfold server_step. rewrite Hs. repeat split. Qed.
